@@ -5,7 +5,8 @@ from ..modgen import Layout, render, expected_entries, Item
 from ..genmod import Builder
 
 VALUES = {
-    "identifier": ["abc", "ON", "OFF", "TRUE", "x1", "_u", "A_B"],
+    # (incl. words that are keywords of set()/option() in CMake itself: the entry shows the values as written)
+    "identifier": ["abc", "ON", "OFF", "TRUE", "x1", "_u", "A_B", "PARENT_SCOPE", "CACHE", "FORCE", "STRING", "INTERNAL", "NOTFOUND"],
     "unquoted": ["a.b", "-DFOO=1", "a;b", "a\;b", "a\\ b", "$<TARGET_FILE:x>", "@VAR@", "1.2.3", "lib/foo.cmake", "a=b",
                  "--flag", "a\\\"b", "x${y}z", "a\\(b\\)", "'q'", "a\\#b", "*.txt", "c:/p", "~", "a[1]", "<x>", "{}",
                  "$ENV{H}x", "a,b", "%"],
@@ -60,8 +61,10 @@ class HBuilder(Builder):
 
 
 def field_of(node, name):
+    """values of the GENERATED field `name` of the entry (a field line that carries a doc-line id is the author's own text)"""
+    from ..modgen import LINE_ID
     pre = " " * (node.indent + 3) + f":{name}:"
-    vals = [l[len(pre):] for l in node.text_lines() if l.startswith(pre)]
+    vals = [l[len(pre):] for l in node.text_lines() if l.startswith(pre) and not LINE_ID.search(l)]
     return vals
 
 
@@ -91,6 +94,14 @@ class Prop(BaseProp):
                      kinds=["set", "set", "set", "option", "option", "function", "block", "cpp_class", "plain", "macro"], p_clone=0.1)
         b.forms = []
         mod = b.module()
+        # doccomments that themselves talk about types and defaults: as a field of the author's own (':type: path') or in
+        # prose; the generated fields of the entry are there all the same
+        for it in mod.walk():
+            if it.kind in ("set", "option") and it.doc is not None and rng.random() < 0.2:
+                k_ = len(it.doc)
+                it.doc = list(it.doc) + [rng.choice([f":type: path {{L{it.uid}.{k_}}}", f"{{L{it.uid}.{k_}}} see :type: below",
+                                                     f":Default value: none {{L{it.uid}.{k_}}}", f"{{L{it.uid}.{k_}}} the :Help text: field"])]
+                res.count("doccomments_mentioning_generated_field_names")
         text = render(mod, Layout(rng, comments=0.1, wild=0.2, case="random"))
         exp = expected_entries(mod)
         tgt = [e for e in exp if e.kind in ("data", "option")]
